@@ -18,6 +18,7 @@ mod c11;
 mod c12;
 mod c13;
 mod c14;
+mod c15;
 mod c19;
 mod prog;
 
@@ -125,6 +126,7 @@ fn main() {
         "c12" => c12::run(&ctx),
         "c13" => c13::run(&ctx),
         "c14" => c14::run(&ctx),
+        "c15" => c15::run(&ctx),
         "c19" => c19::run(&ctx),
         "c19dump" => c19::dump(&ctx),
         _ => {
